@@ -124,8 +124,18 @@ func runCLIOnce(c *core.Ctx, r *request, n int) runOut {
 	default:
 		os.Unsetenv("GOMAXPROCS")
 	}
+	// … nor the same garbage-collection rhythm (other heap addresses and allocation order)
+	switch n % 4 {
+	case 0:
+		os.Setenv("GOGC", "1")
+	case 1:
+		os.Setenv("GOGC", "off")
+	default:
+		os.Unsetenv("GOGC")
+	}
 	res := c.RunCLI("", 60*time.Second, args...)
 	os.Unsetenv("GOMAXPROCS")
+	os.Unsetenv("GOGC")
 	var b strings.Builder
 	if res.Timeout {
 		b.WriteString("exit=timeout\n")
@@ -379,6 +389,20 @@ func seedUse(c *core.Ctx, in *inputs) {
 	c.Emit("C18.seeduse", core.StrList(res))
 }
 
+// which runnable command of the live command tree each CLI template exercises
+func commandsCase(c *core.Ctx, in *inputs) {
+	var pairs []string
+	for _, r := range cliTemplates(c, in) {
+		found, _, err := gotreecmd.RootCmd.Find(r.args)
+		path := "?"
+		if err == nil && found != nil {
+			path = strings.TrimPrefix(found.CommandPath(), "gotree ")
+		}
+		pairs = append(pairs, r.tpl+"="+path)
+	}
+	c.Emit("C18.commands", core.StrList(liveCommands()), core.StrList(pairs))
+}
+
 // the extractor on a synthetic package containing one of everything it must find
 func selfTest(c *core.Ctx) {
 	got, err := SelfTest(c.Tmp)
@@ -399,6 +423,8 @@ func replay(c *core.Ctx, lines []string) {
 			c.Emit("C18.table")
 		case f[0] == "C18.selftest":
 			selfTest(c)
+		case f[0] == "C18.commands":
+			commandsCase(c, genInputs(c, 0))
 		case strings.HasPrefix(f[0], "C18.site-"):
 			replaySite(c, f)
 		}
@@ -450,6 +476,7 @@ func Run(c *core.Ctx) {
 		siteCases(c, in)
 		if c.Gotree != "" && rep == 0 {
 			seedUse(c, in)
+			commandsCase(c, in)
 		}
 	}
 }
